@@ -634,3 +634,94 @@ pub fn verif_arg_matches(arg: &str, short: Option<char>, long: Option<&'static s
 pub fn verif_cmd_matches(arg: &str, name: &'static str, short: Option<char>) -> Option<&'static str> {
     cmd_matches(arg, name, short)
 }
+
+/// verification hook: a completion hint given as plain data
+#[cfg(bpaf_verif)]
+#[doc(hidden)]
+#[derive(Debug, Clone)]
+#[allow(missing_docs)]
+pub enum VerifComp {
+    Flag { depth: usize, group: Option<String>, help: Option<String>, short: Option<char>, long: Option<&'static str> },
+    Argument { depth: usize, group: Option<String>, help: Option<String>, short: Option<char>, long: Option<&'static str>, metavar: &'static str },
+    Command { depth: usize, group: Option<String>, help: Option<String>, name: &'static str, short: Option<char> },
+    Value { depth: usize, group: Option<String>, help: Option<String>, body: String, is_argument: bool },
+    Metavariable { depth: usize, group: Option<String>, help: Option<String>, meta: &'static str, is_argument: bool },
+    Shell { depth: usize, group: Option<String>, help: Option<String>, script: ShellComp, is_argument: bool },
+}
+
+/// verification hook: `Complete::complete` applied to explicit hints; the prefix is the `-s=` or
+/// `--long=` glued to the word being completed; returns `(subst, pretty, group, help)` per candidate
+#[cfg(bpaf_verif)]
+#[doc(hidden)]
+#[must_use]
+#[allow(clippy::type_complexity)]
+pub fn verif_complete(
+    comps: &[VerifComp],
+    arg: &str,
+    pos_only: bool,
+    is_named: bool,
+    prefix_short: Option<char>,
+    prefix_long: Option<&str>,
+) -> (Vec<(String, String, Option<String>, Option<String>)>, Vec<ShellComp>) {
+    fn name_of(short: Option<char>, long: Option<&'static str>) -> Option<ShortLong> {
+        Some(match (short, long) {
+            (Some(s), Some(l)) => ShortLong::Both(s, l),
+            (Some(s), None) => ShortLong::Short(s),
+            (None, Some(l)) => ShortLong::Long(l),
+            (None, None) => return None,
+        })
+    }
+    let mut complete = Complete::new(0);
+    for c in comps {
+        let (depth, group, help) = match c {
+            VerifComp::Flag { depth, group, help, .. }
+            | VerifComp::Argument { depth, group, help, .. }
+            | VerifComp::Command { depth, group, help, .. }
+            | VerifComp::Value { depth, group, help, .. }
+            | VerifComp::Metavariable { depth, group, help, .. }
+            | VerifComp::Shell { depth, group, help, .. } => (*depth, group.clone(), help.clone()),
+        };
+        let extra = CompExtra { depth, group, help };
+        match c {
+            VerifComp::Flag { short, long, .. } => {
+                if let Some(name) = name_of(*short, *long) {
+                    complete.comps.push(Comp::Flag { extra, name });
+                }
+            }
+            VerifComp::Argument { short, long, metavar, .. } => {
+                if let Some(name) = name_of(*short, *long) {
+                    complete.comps.push(Comp::Argument { extra, name, metavar });
+                }
+            }
+            VerifComp::Command { name, short, .. } => {
+                complete.comps.push(Comp::Command { extra, name, short: *short });
+            }
+            VerifComp::Value { body, is_argument, .. } => complete.comps.push(Comp::Value {
+                extra,
+                body: body.clone(),
+                is_argument: *is_argument,
+            }),
+            VerifComp::Metavariable { meta, is_argument, .. } => {
+                complete.comps.push(Comp::Metavariable { extra, meta, is_argument: *is_argument });
+            }
+            VerifComp::Shell { script, is_argument, .. } => complete.comps.push(Comp::Shell {
+                extra,
+                script: *script,
+                is_argument: *is_argument,
+            }),
+        }
+    }
+    let prefix = match (prefix_short, prefix_long) {
+        (Some(s), _) => Prefix::Short(s),
+        (None, Some(l)) => Prefix::Long(l),
+        (None, None) => Prefix::NA,
+    };
+    let (items, shell) = complete.complete(arg, pos_only, is_named, prefix);
+    (
+        items
+            .iter()
+            .map(|i| (i.subst.clone(), i.pretty.clone(), i.extra.group.clone(), i.extra.help.clone()))
+            .collect(),
+        shell,
+    )
+}
